@@ -125,7 +125,10 @@ pub fn principals(m: &Model) -> Vec<Principal> {
         }
     }
     for (name, key) in keys {
-        for (class, t) in near_misses(&key) {
+        // (a server-generated key differs in every world: the digest search
+        // is not repeated for it; prefix / extension / hash-hex still are)
+        let searched = if key.starts_with("key-") || key == ADMIN_KEY { near_misses(&key) } else { Vec::new() };
+        for (class, t) in searched {
             push(format!("near-miss:{class}:{name}"), "near-miss", Auth::Bearer(t));
         }
         push(format!("near-miss:prefix:{name}"), "near-miss", Auth::Bearer(key[..key.len() - 1].to_string()));
@@ -268,7 +271,16 @@ pub enum Variant {
     Minimal,
     /// `params` is a string instead of a map.
     BadParams,
+    /// `db.set_api_key` only: `{name: NAMED[i]}` without `api_key` (the
+    /// server generates the key).
+    GenKeyFor(usize),
+    /// `db.set_api_key` only: `{name: NAMED[i], api_key: ..}`.
+    ExplicitKeyFor(usize),
 }
+
+/// Databases named in the extra `db.set_api_key` bodies.
+pub const NAMED: [&str; 4] = [DBS[0], DBS[1], PRIMARY, DB_MISSING];
+pub const NAMED_CLASS: [&str; 4] = ["tenant", "tenant", "primary", "missing"];
 
 #[derive(Clone, Debug, PartialEq, Eq)]
 pub enum BodyKind {
@@ -296,6 +308,7 @@ impl Body {
         match &self.kind {
             BodyKind::Method { variant: Variant::Minimal, .. } => "method".into(),
             BodyKind::Method { variant: Variant::BadParams, .. } => "method-bad-params".into(),
+            BodyKind::Method { .. } => "method".into(),
             BodyKind::Probe(p) => format!("probe:{p}"),
         }
     }
@@ -346,7 +359,12 @@ pub fn bodies(tables: &Tables) -> Vec<Body> {
     names.sort_by_key(|(n, e)| method_rank(n, *e));
     let mut out = Vec::new();
     for (n, _) in &names {
-        for variant in [Variant::Minimal, Variant::BadParams] {
+        let mut variants = vec![Variant::Minimal, Variant::BadParams];
+        if n == "db.set_api_key" {
+            variants.extend((0..NAMED.len()).map(Variant::GenKeyFor));
+            variants.extend([2, 3].map(Variant::ExplicitKeyFor));
+        }
+        for variant in variants {
             out.push(Body {
                 kind: BodyKind::Method { name: n.clone(), variant },
                 label: n.clone(),
@@ -445,6 +463,8 @@ impl Body {
             BodyKind::Method { name, variant } => {
                 let params = match variant {
                     Variant::BadParams => json!("these-params-are-a-string"),
+                    Variant::GenKeyFor(i) => json!({"name": NAMED[*i]}),
+                    Variant::ExplicitKeyFor(i) => json!({"name": NAMED[*i], "api_key": "explicit-key-2718"}),
                     Variant::Minimal => match minimal_params(name, victim) {
                         Value::String(_) => generic_params(victim),
                         p => p,
